@@ -868,6 +868,16 @@ func (d *Driver) nextRaw() Event {
 					dur = 2 * longest
 				}
 			}
+			// TLC's integers are 32 bit: the price of any renewal order (size x replica x term, in 10^-6 coins) stays below 2^31
+			for _, dn := range datas {
+				if mm := d.findMeta(dn); mm != nil {
+					if o := d.findOrder(mm.Order); o != nil && o.Size*o.Replica > 0 {
+						if lim := 2000000000 / (o.Size * o.Replica); dur > lim && lim >= 3600 {
+							dur = lim
+						}
+					}
+				}
+			}
 			return Event{Kind: "Renew", Creator: cr, Provider: pv, Owner: m.Owner, Signer: m.Owner, Datas: datas, Dur: dur, Timeout: d.pickI(d.P.Timeouts)}
 		case "GranteeCycle":
 			// state-directed walk through a grantee's life: the owner grants read-write; the grantee updates; the update's
